@@ -99,8 +99,11 @@ class WorldX:
         self.laws = UniverseLaws(edge_whitelist=self.wl_in)
         self.uni = Universe(vertices=[self.vs[m] for m in case["uni"]], laws=self.laws)
         self.a, self.b = case["pair"]
+        self.empty = Universe()
 
     def observe(self):
+        from edgegraph.structure import Universe
+
         vi = {id(v): i for i, v in enumerate(self.vs)}
         li = {id(l): i for i, l in enumerate(self.ls)}
         snap = [
@@ -110,6 +113,9 @@ class WorldX:
             [[1 if u is self.uni else "?" for u in v.universes] for v in self.vs],
             None if self.uni.laws.edge_whitelist is None else sorted((k.__name__, sorted((a.__name__, b.__name__) for a, b in v.items())) for k, v in self.uni.laws.edge_whitelist.items()),
         ]
+        from edgegraph.traversal import breadthfirst as _B
+
+        snap.append(list(_B.bft(Universe(), self.vs[0])))      # any empty universe: always []
         return snap, battery.evaluate(self.vs, self.ls, [self.uni], level=2, searches=False)
 
 
@@ -138,6 +144,7 @@ def out_points(W):
         ("dft_recursive()", lambda: D.dft_recursive(None, a, direction_sensitive=1, unknown_handling=1)),
         ("dft_iterative()", lambda: D.dft_iterative(None, a, direction_sensitive=1, unknown_handling=1)),
         ("bft(uni)", lambda: B.bft(W.uni, W.uni.vertices[0], direction_sensitive=1, unknown_handling=1)),
+        ("bft(empty-universe)", lambda: B.bft(W.empty, a)),
     ]
     if W.ls:
         pts.insert(1, ("Link.vertices", lambda: W.ls[0].vertices))
@@ -282,10 +289,13 @@ def _in_points(W, case, junk, verify, classes):
 
         inner = {Vertex: DirectedEdge}
         # the inner mapping is handed over as a dict or as a read-only VIEW of a dict the caller keeps
-        given = types.MappingProxyType(inner) if (W.a + W.b) % 2 else inner
+        import collections
+
+        base_layer = {Universe: DirectedEdge}
+        given = [inner, types.MappingProxyType(inner), collections.ChainMap(inner, base_layer)][(W.a + W.b) % 3]
         outer = {Vertex: given, Universe: {Vertex: DirectedEdge}}
         laws = UniverseLaws(edge_whitelist=outer)
-        return [outer, inner], lambda: sorted((k.__name__, sorted((a.__name__, b.__name__) for a, b in v.items())) for k, v in laws.edge_whitelist.items())
+        return [outer, inner, base_layer], lambda: sorted((k.__name__, sorted((a.__name__, b.__name__) for a, b in v.items())) for k, v in laws.edge_whitelist.items())
 
     def mk_adjdict():
         fresh = [Vertex(attributes={"i": 100 + i}) for i in range(3)]
